@@ -86,6 +86,8 @@ func runC07(c *Ctx, phase string) {
 	c.Floor("base_false", int64(n/2))
 	c.Floor("extensions_flipped_false_to_true", 300)
 	c.Floor("lists_with_3plus_near_duplicates", 300)
+	c.Floor("lists_with_9plus_entries", 1000)
+	c.Floor("lists_with_33plus_entries", 200)
 	for _, k := range []string{"permute", "reverse-sorted", "duplicate", "respell", "extend"} {
 		c.Floor("variant_"+k, int64(n/2))
 	}
@@ -103,8 +105,8 @@ func runC07(c *Ctx, phase string) {
 			}
 		}
 		extra := r.Intn(4)
-		if r.Chance(1, 10) {
-			extra += r.Intn(30)
+		if r.Chance(1, 4) {
+			extra += 6 + r.Intn(50) // long lists: implementations may index / bisect / cap above a size threshold
 		}
 		for j := 0; j < extra; j++ {
 			terms = append(terms, u.RandomTerm(r))
@@ -122,6 +124,8 @@ func runC07(c *Ctx, phase string) {
 			terms = append(terms, u.RandomTerm(r))
 		}
 		c.CountIf(nearDup >= 3, "lists_with_3plus_near_duplicates")
+		c.CountIf(len(terms) >= 9, "lists_with_9plus_entries")
+		c.CountIf(len(terms) >= 33, "lists_with_33plus_entries")
 		// shuffle the base
 		p := r.Perm(len(terms))
 		base := make([]string, len(terms))
